@@ -122,15 +122,40 @@ def part_cache_switches():
                 shutil.copy(os.path.join(lib.SPEC, f), d)
             a, b = sw.split('/')
             p = os.path.join(d, 'MC_CacheModel.cfg')
-            open(p, 'w').write(open(p).read().replace(a, b))
+            txt = open(p).read().replace(a, b)
+            open(p, 'w').write(txt)
             r = lib.run_tlc('CacheModel.tla', 'MC_CacheModel.cfg', cwd=d, workers=8, coverage=False, timeout=600, heap='4g')
             say('HistoryIndependent' in r['violated'], f"CacheModel with the historical behaviour '{b}': HistoryIndependent fails (violated: {r['violated']})")
         finally:
             shutil.rmtree(d, ignore_errors=True)
 
 
+def part_history_switches():
+    """WriteHistory: every implementation switch set to the historical / seeded behaviour breaks an invariant."""
+    for sw, expect in (('Typed = TRUE/Typed = FALSE', 'HistoryIndependent'), ('BypassFloat = TRUE/BypassFloat = FALSE', 'HistoryIndependent'),
+                       ('BypassRef = TRUE/BypassRef = FALSE', 'HistoryIndependent'), ('Invalidate = TRUE/Invalidate = FALSE', 'HistoryIndependent'),
+                       ('MarkDerived = TRUE/MarkDerived = FALSE', 'HistoryIndependent'),
+                       ('FlagAfterValidation = TRUE/FlagAfterValidation = FALSE', 'RejectedIsNoOp'),
+                       ('SameCastShortcut = FALSE/SameCastShortcut = TRUE', 'HistoryIndependent'),
+                       ('DerivedByIdentity = TRUE/DerivedByIdentity = FALSE', 'HistoryIndependent'),
+                       ('GuessEachTime = TRUE/GuessEachTime = FALSE', 'HistoryIndependent'), ('CountLive = TRUE/CountLive = FALSE', 'NoStaleCount')):
+        d = tempfile.mkdtemp(prefix='stspec', dir='/tmp')
+        try:
+            for f in os.listdir(lib.SPEC):
+                shutil.copy(os.path.join(lib.SPEC, f), d)
+            a, b = sw.split('/')
+            p = os.path.join(d, 'MC_WriteHistory_quick.cfg')
+            txt = open(p).read().replace('  ' + a, '  ' + b)
+            open(p, 'w').write(txt)
+            r = lib.run_tlc('WriteHistory.tla', 'MC_WriteHistory_quick.cfg', cwd=d, workers=8, coverage=False, timeout=600, heap='4g')
+            say(expect in r['violated'], f"WriteHistory with '{b}': {expect} fails (violated: {r['violated']})")
+        finally:
+            shutil.rmtree(d, ignore_errors=True)
+
+
 def part_models():
     part_cache_switches()
+    part_history_switches()
     for fname, old, new, module, cfg, expect in MODEL_MUTANTS:
         d = tempfile.mkdtemp(prefix='stspec', dir='/tmp')
         try:
